@@ -1,7 +1,11 @@
 (** C03: printer used by the correspondence check only (the kernel's canonical observation). *)
 From Coq Require Import List Arith ZArith Bool String.
-From TwLib Require Import Show DeferredK DeferredKShow.
+From TwLib Require Import Show DeferredK DeferredKShow DeferredKR DeferredKRShow.
 Import ListNotations.
 
 (** the model of the code as it is meant to be (with the C01 repair of the callback loop) *)
 Definition run_show (p : program) : string := show_program true p.
+
+(** programs whose callbacks run kernel operations (scripts) are evaluated on the re-entrant kernel DeferredKR *)
+Definition show_any (c : program + rprogram) : string :=
+  match c with inl p => run_show p | inr p => show_rprogram p end.
